@@ -95,6 +95,22 @@ GRAPHS['side_effect_operands'] = {
                          IF(B('and', V('x'), V('y')), [RET(B('+', U('cardinality', V('cs')), I(100)))]),
                          RET(U('cardinality', V('cs')))],
     ('function', 'F2'): [('create', 'c', 'Class'), seta('c', 'val', P('x')), RET(T)]}
+GRAPHS['derived_other'] = {
+    # a derived attribute whose body reads the SAME derived attribute of ANOTHER instance of the class
+    # (strictly smaller val, so the recursion ends): self's result must not be confused with the other's
+    ('function', 'F1'): [('select', 'many', 'cs', 'Class', None), let('s', I(0)),
+                         FE('c', 'cs', [inc('s', B('*', A(V('c'), 'Derived_Attribute'), I(1)))]),
+                         ('select', 'any', 'c0', 'Class', None), RET(B('+', B('*', V('s'), I(1000)), A(V('c0'), 'Derived_Attribute')))],
+    ('derived',): [('assign', A(SELF, 'Derived_Attribute'), A(SELF, 'val')),
+                   ('select', 'any', 'o', 'Class', B('<', A(SEL, 'val'), A(SELF, 'val'))),
+                   IF(U('not_empty', V('o')),
+                      [('assign', A(SELF, 'Derived_Attribute'), B('+', A(V('o'), 'Derived_Attribute'), B('*', A(SELF, 'val'), I(2))))])]}
+GRAPHS['same_label'] = {
+    # two bridges with the same name on different external entities (action labels are not unique)
+    ('function', 'F1'): [let('x', call('bridge', 'MYEE', 'Br', x=P('a'))), let('y', call('bridge', 'OTHER', 'Br', x=P('a'))),
+                         let('z', call('bridge', 'MYEE', 'Br', x=P('b'))), RET(B('+', B('*', V('x'), I(10000)), B('+', B('*', V('y'), I(100)), V('z'))))],
+    ('bridge', 'Br'): [RET(B('+', P('x'), I(7)))],
+    ('bridge2', 'Br'): [RET(B('-', P('x'), I(3)))]}
 G = GRAPHS[GRAPH]
 STYLE = PARAMS.get('style', 'lower')
 BP = None
@@ -113,18 +129,25 @@ def load_bp():
     xtuml.relate(pe, one(proto).PE_PE[8001].EP_PKG[8000](), 8000)
     s_brg = m.new('S_BRG', Name='Br')
     xtuml.relate(s_brg, s_ee, 19)
+    s_ee2 = m.new('S_EE', Name='Other EE', Key_Lett='OTHER')
+    pe2 = m.new('PE_PE')
+    xtuml.relate(s_ee2, pe2, 8001)
+    xtuml.relate(pe2, one(proto).PE_PE[8001].EP_PKG[8000](), 8000)
+    s_brg2 = m.new('S_BRG', Name='Br')
+    xtuml.relate(s_brg2, s_ee2, 19)
     return m
 
 
 def install(m, style=None):
-    for key, body in G.items():
+    for key, body in list(G.items()):
         text = oalgen.to_text(body, style or STYLE)
         if key[0] == 'function':
             m.select_one('S_SYNC', lambda s: s.Name == key[1]).Action_Semantics_internal = text
         elif key[0] in ('class', 'instance'):
             m.select_one('O_TFR', lambda s: s.Name == key[1]).Action_Semantics_internal = text
-        elif key[0] == 'bridge':
-            m.select_one('S_BRG', lambda s: s.Name == key[1]).Action_Semantics_internal = text
+        elif key[0] in ('bridge', 'bridge2'):
+            ee = 'MYEE' if key[0] == 'bridge' else 'OTHER'
+            m.select_one('S_BRG', lambda s: s.Name == key[1] and one(s).S_EE[19]().Key_Lett == ee).Action_Semantics_internal = text
         elif key[0] == 'derived':
             m.select_one('O_DBATTR').Action_Semantics_internal = text
 
@@ -144,6 +167,8 @@ def callables():
             c[(key[0], 'Class', key[1])] = mk(body)
         elif key[0] == 'bridge':
             c[('bridge', 'MYEE', key[1])] = mk(body)
+        elif key[0] == 'bridge2':
+            c[('bridge', 'OTHER', key[1])] = mk(body)
         elif key[0] == 'derived':
             def derived(ev, h, body=body):
                 oalgen.RefEval(ev.pop, {}, h, ev.callables).run(body)
